@@ -131,9 +131,27 @@ func c12Run(c c12Case) Verdict {
 		}
 		return expect{Code: 504, What: what + " disabled"}
 	}
+	// keywords are case-insensitive (RFC 5321 2.4): the same probes in other spellings
+	sp := func(s string, k int) string {
+		switch k % 3 {
+		case 1:
+			return strings.ToLower(s)
+		case 2:
+			return strings.ToUpper(s[:1]) + strings.ToLower(s[1:])
+		}
+		return s
+	}
+	k := int(c.Size) + c.RcptMax + len(c.TLS) + len(c.Order)
+	if c.UTF8 {
+		k++
+	}
+	if c.DSN {
+		k += 2
+	}
 	probes := []c12Probe{
-		{"binarymime", []string{"MAIL FROM:<a@b> BODY=BINARYMIME", "RSET"}, []expect{yes(c.BinaryMIME, "BINARYMIME"), {Code: 250}}},
-		{"smtputf8", []string{"MAIL FROM:<a@b> SMTPUTF8", "RSET"}, []expect{yes(c.UTF8, "SMTPUTF8"), {Code: 250}}},
+		{"binarymime", []string{"MAIL FROM:<a@b> " + sp("BODY", k) + "=" + sp("BINARYMIME", k+1), "RSET"}, []expect{yes(c.BinaryMIME, "BINARYMIME"), {Code: 250}}},
+		{"smtputf8", []string{"MAIL FROM:<a@b> " + sp("SMTPUTF8", k+1), "RSET"}, []expect{yes(c.UTF8, "SMTPUTF8"), {Code: 250}}},
+		{"smtputf8-lower", []string{"MAIL FROM:<a@b> smtputf8", "RSET"}, []expect{yes(c.UTF8, "SMTPUTF8"), {Code: 250}}},
 		{"dsn-ret", []string{"MAIL FROM:<a@b> RET=HDRS", "RSET"}, []expect{yes(c.DSN, "DSN RET"), {Code: 250}}},
 		{"dsn-envid", []string{"MAIL FROM:<a@b> ENVID=abc", "RSET"}, []expect{yes(c.DSN, "DSN ENVID"), {Code: 250}}},
 		{"dsn-notify", []string{"MAIL FROM:<a@b>", "RCPT TO:<c@d> NOTIFY=SUCCESS", "RSET"}, []expect{{Code: 250}, yes(c.DSN, "DSN NOTIFY"), {Code: 250}}},
@@ -145,7 +163,7 @@ func c12Run(c c12Case) Verdict {
 	if c.RequireTLS && !active {
 		// enabled by the configuration but not advertised on a plaintext connection: unspecified
 	} else {
-		probes = append(probes, c12Probe{"requiretls", []string{"MAIL FROM:<a@b> REQUIRETLS", "RSET"}, []expect{yes(c.RequireTLS, "REQUIRETLS"), {Code: 250}}})
+		probes = append(probes, c12Probe{"requiretls", []string{"MAIL FROM:<a@b> " + sp("REQUIRETLS", k+2), "RSET"}, []expect{yes(c.RequireTLS, "REQUIRETLS"), {Code: 250}}})
 	}
 	if c.Size > 0 {
 		probes = append(probes,
@@ -236,6 +254,14 @@ func c12Run(c c12Case) Verdict {
 		if strings.Join(got2, "|") != strings.Join(c12Expected(c2), "|") {
 			return fail(failf("capabilities", "after STARTTLS, configuration %+v\nadvertised: %q\nexpected:   %q", c, got2, c12Expected(c2)))
 		}
+		// what the new session is offered must work, whatever happened in plaintext
+		if c.AuthBackend {
+			out, _ := w.Exchange([]byte("AUTH PLAIN AHUAcHc=\r\n"))
+			ar2, perr := harness.ParseReplies(out)
+			if perr != nil || len(ar2) != 1 || ar2[0].Code != 235 {
+				return fail(failf("probe-auth", "configuration %+v: after STARTTLS AUTH is advertised but AUTH PLAIN was answered %v (an earlier plaintext authentication must not count)", c, codes(ar2)))
+			}
+		}
 	} else if sr[0].Class() != 5 {
 		return fail(failf("probe-starttls", "STARTTLS is not available (tls=%q) but was answered %s", c.TLS, sr[0]))
 	}
@@ -311,7 +337,7 @@ func TestC12(t *testing.T) {
 		if c.TLS == "implicit" && rapid.Bool().Draw(rt, "upgraded") {
 			c.TLS = "upgraded"
 		}
-		c.Order = rapid.Permutation(seqInts(14)).Draw(rt, "order")
+		c.Order = rapid.Permutation(seqInts(15)).Draw(rt, "order")
 		return c
 	})
 }
